@@ -368,13 +368,14 @@ Definition process_response (s : st) (r : remote) (w : wire) : bool * st * list 
       end
   end.
 
-(* the collection loop of dispatch_error (tokenmanager.py:97-104): `request_remote == remote` is evaluated with
-   the udp6 address class (udp6.py:149), which raises AttributeError when the stored remote is None (multicast key) *)
-Fixpoint collect_stoppers (r : remote) (og : list (key * Z)) : M (list Z) :=
+(* the collection loop of dispatch_error (tokenmanager.py:97-104): `request_remote == remote`; for the key of a
+   multicast request the stored remote is None, and `None == <udp6 address>` is False (udp6.py:149-153: __eq__
+   returns NotImplemented for a non-address), so such entries are skipped *)
+Fixpoint collect_stoppers (r : remote) (og : list (key * Z)) : list Z :=
   match og with
-  | [] => Ok []
-  | ((_, None), _) :: _ => Raise AttributeError
-  | ((_, Some r'), q) :: rest => l <- collect_stoppers r rest ;; Ok (if r' =? r then q :: l else l)
+  | [] => []
+  | ((_, None), _) :: rest => collect_stoppers r rest
+  | ((_, Some r'), q) :: rest => if r' =? r then q :: collect_stoppers r rest else collect_stoppers r rest
   end.
 Fixpoint run_stoppers (s : st) (qs : list Z) (e : exn) : st * list output :=
   match qs with
@@ -384,10 +385,10 @@ Fixpoint run_stoppers (s : st) (qs : list Z) (e : exn) : st * list output :=
 Inductive errkind := EOs | ENet (e : exn).        (* not a NetworkError (wrapped) / a NetworkError subclass instance *)
 Definition wrap_error (k : errkind) : exn := match k with EOs => NetworkError | ENet e => e end.
 (* dispatch_error (tokenmanager.py:74) *)
-Definition tm_dispatch_error (s : st) (k : errkind) (r : remote) : M (st * list output) :=
+Definition tm_dispatch_error (s : st) (k : errkind) (r : remote) : st * list output :=
   match outgoing s with
-  | None => Ok (s, [])
-  | Some og => qs <- collect_stoppers r og ;; Ok (run_stoppers s qs (wrap_error k))
+  | None => (s, [])
+  | Some og => run_stoppers s (collect_stoppers r og) (wrap_error k)
   end.
 
 (* shutdown (tokenmanager.py:44): `while self.outgoing_requests: pop first; add_exception(LibraryShutdown)` *)
@@ -409,12 +410,9 @@ Definition mm_dispatch_error (s : st) (k : errkind) (r : remote) : st * list out
   match exchanges s with
   | None => (s, [])
   | Some _ =>
-      match tm_dispatch_error s k r with
-      | Raise e => (s, [Raised e])
-      | Ok (s1, o1) =>
-          let ex' := match exchanges s1 with Some ex => Some (filter (fun e => negb (fst (fst e) =? r)) ex) | None => None end in
-          (set_backlogs (set_exchanges s1 ex') (aremove Z.eqb r (backlogs s1)), o1)
-      end
+      let '(s1, o1) := tm_dispatch_error s k r in
+      let ex' := match exchanges s1 with Some ex => Some (filter (fun e => negb (fst (fst e) =? r)) ex) | None => None end in
+      (set_backlogs (set_exchanges s1 ex') (aremove Z.eqb r (backlogs s1)), o1)
   end.
 
 Definition empty_msg (mtype mid : Z) : wire :=
@@ -456,10 +454,7 @@ Definition _retransmit (s : st) (r : remote) (mid : Z) : st * list output :=
              [wire_send r (ex_msg e)])
           else
             let s2 := set_backlogs s1 (aremove Z.eqb r (backlogs s1)) in
-            match tm_dispatch_error s2 (ENet ConRetransmitsExceeded) r with
-            | Raise x => (s2, [LoopExc x])                                  (* escapes the timer callback *)
-            | Ok so => so
-            end
+            tm_dispatch_error s2 (ENet ConRetransmitsExceeded) r
       end
   end.
 
